@@ -59,6 +59,22 @@ Proof. vm_compute. reflexivity. Qed.
 Lemma variadic_len_always : variadic_len_policy = WriteAlways /\ value_stack_covered = true.
 Proof. vm_compute. auto. Qed.
 
+(* per-match fields of filterParams (the current match, the Do() strings, the custom-filter variable): each is stored in
+   front of every evaluation that reads it *)
+Definition per_match_policy (f : string) : write_policy :=
+  match find (fun p => String.eqb (fst p) f) gen_per_match_stores with
+  | Some p => match policy_of_string (snd p) with Some w => w | None => WriteNever end
+  | None => WriteNever
+  end.
+Definition per_match_fields : list string := ["match"; "reportString"; "suggestString"; "varname"].
+Lemma per_match_always : forallb (fun f => policy_is_always (per_match_policy f)) per_match_fields = true.
+Proof. vm_compute. reflexivity. Qed.
+Lemma per_match_always_In f : In f per_match_fields -> per_match_policy f = WriteAlways.
+Proof.
+  intros H. pose proof per_match_always as A. rewrite forallb_forall in A. specialize (A f H).
+  destruct (per_match_policy f); [reflexivity|discriminate|discriminate].
+Qed.
+
 (* the walk-scoped context starts at its zero value: the fresh filterParams literal does not mention it and
    nothing but the walker writes it *)
 Definition fresh_filter_params : bool :=
